@@ -42,7 +42,9 @@ Record pdsrv := PdSrv {
   ps_dash : string; ps_digit : Z; ps_trace : bool; ps_key : string (* opaque payload: key-type *) }.
 Definition lprop := list (string * list (string * string)).   (* label-property map, sorted by type *)
 Record rmode := RMode { rm_mode : string; rm_label : string }.
-Record conf := Conf { c_sched : sched; c_repl : repl; c_pd : pdsrv; c_lp : lprop; c_ver : ver; c_rm : rmode }.
+(* store-limit part of the schedule section: store id -> (add-peer, remove-peer) rates x1000, sorted by store id *)
+Definition limits := amap (Z * Z).
+Record conf := Conf { c_sched : sched; c_repl : repl; c_pd : pdsrv; c_lp : lprop; c_ver : ver; c_rm : rmode; c_limits : limits }.
 Record rule := Rule { ru_count : Z; ru_labels : list string }.
 
 Record state := State {
@@ -178,12 +180,13 @@ Definition reload_conf (c : conf) : conf :=
        (* trace-region-flow=false is omitted from the JSON, so the loaded flag is true whatever was stored
           and MigrateDeprecatedFlags leaves flow-round-by-digit alone; then the flag is cleared *)
        (PdSrv (ps_dash (c_pd c)) (ps_digit (c_pd c)) false (ps_key (c_pd c)))
-       (c_lp c) (c_ver c) (c_rm c).
+       (c_lp c) (c_ver c) (c_rm c) (c_limits c).
 (* the documented reload normalisation: default schedulers re-added, deprecated flags migrated
    (the deprecated disable-* flags and store-balance-rate are cleared; trace-region-flow is cleared) *)
 Definition normalise (c : conf) : conf := reload_conf c.
 
 (* ---------- operations ---------- *)
+Inductive ltype := LAdd | LRemove.
 Inductive op :=
 | OSetSchedule (c : sched) (f : fault)
 | OSetReplication (c : repl) (f : fault)
@@ -191,7 +194,12 @@ Inductive op :=
 | OSetLabel (typ k v : string) (f : fault)
 | ODelLabel (typ k v : string) (f : fault)
 | OSetVersion (v : option ver) (f : fault)          (* None: a string that does not parse *)
-| OSetMode (c : rmode) (f : fault).
+| OSetMode (c : rmode) (f : fault)
+| OSetLabelMap (m : lprop) (f : fault)              (* Server.SetLabelPropertyConfig: the whole map *)
+| OSetStoreLimit (id : Z) (t : ltype) (rate dflt : Z) (f : fault)
+    (* RaftCluster.SetStoreLimit; dflt = the process-wide default limit of the OTHER type as the call sees it (config.DefaultStoreLimit
+       is a package variable, not part of the persisted configuration: an input of the operation) *)
+| OSetAllLimits (t : ltype) (rate : Z) (f : fault). (* RaftCluster.SetAllStoresLimit *)
 
 Inductive res :=
 | ROk | RInvalid            (* Validate / Deprecated / parse / unknown mode *)
@@ -208,12 +216,13 @@ Definition set_strule (s : state) (r : option rule) : state := State (served s) 
 Definition set_init (s : state) (b : bool) : state := State (served s) (stored s) (srule s) (strule s) b (mm s).
 Definition set_mm (s : state) (m : rmode) : state := State (served s) (stored s) (srule s) (strule s) (rm_init s) m.
 
-Definition with_sched (c : conf) (x : sched) := Conf x (c_repl c) (c_pd c) (c_lp c) (c_ver c) (c_rm c).
-Definition with_repl (c : conf) (x : repl) := Conf (c_sched c) x (c_pd c) (c_lp c) (c_ver c) (c_rm c).
-Definition with_pd (c : conf) (x : pdsrv) := Conf (c_sched c) (c_repl c) x (c_lp c) (c_ver c) (c_rm c).
-Definition with_lp (c : conf) (x : lprop) := Conf (c_sched c) (c_repl c) (c_pd c) x (c_ver c) (c_rm c).
-Definition with_ver (c : conf) (x : ver) := Conf (c_sched c) (c_repl c) (c_pd c) (c_lp c) x (c_rm c).
-Definition with_rm (c : conf) (x : rmode) := Conf (c_sched c) (c_repl c) (c_pd c) (c_lp c) (c_ver c) x.
+Definition with_sched (c : conf) (x : sched) := Conf x (c_repl c) (c_pd c) (c_lp c) (c_ver c) (c_rm c) (c_limits c).
+Definition with_repl (c : conf) (x : repl) := Conf (c_sched c) x (c_pd c) (c_lp c) (c_ver c) (c_rm c) (c_limits c).
+Definition with_pd (c : conf) (x : pdsrv) := Conf (c_sched c) (c_repl c) x (c_lp c) (c_ver c) (c_rm c) (c_limits c).
+Definition with_lp (c : conf) (x : lprop) := Conf (c_sched c) (c_repl c) (c_pd c) x (c_ver c) (c_rm c) (c_limits c).
+Definition with_ver (c : conf) (x : ver) := Conf (c_sched c) (c_repl c) (c_pd c) (c_lp c) x (c_rm c) (c_limits c).
+Definition with_rm (c : conf) (x : rmode) := Conf (c_sched c) (c_repl c) (c_pd c) (c_lp c) (c_ver c) x (c_limits c).
+Definition with_limits (c : conf) (x : limits) := Conf (c_sched c) (c_repl c) (c_pd c) (c_lp c) (c_ver c) (c_rm c) x.
 
 (* PersistOptions.Persist: the idx-th write of the config key in this operation *)
 Definition persist (s : state) (f : fault) (idx : nat) : state * bool :=
@@ -340,6 +349,22 @@ Definition do_set_label (s : state) (t k v : string) (f : fault) : state * res :
 Definition do_del_label (s : state) (t k v : string) (f : fault) : state * res :=
   swap_persist s (with_lp (served s) (lp_delete (c_lp (served s)) t k v)) f.
 
+(* SetLabelPropertyConfig: the whole map is swapped in; on a failed Persist the old map is put back *)
+Definition do_set_label_map (s : state) (m : lprop) (f : fault) : state * res :=
+  swap_persist s (with_lp (served s) m) f.
+
+(* store limits.  PersistOptions.SetStoreLimit: the rate of the given type is replaced, the other one kept (or the process default
+   when the store has no entry yet); SetAllStoresLimit: the given type is replaced in every entry.  Both: Persist, and on failure the
+   whole schedule section (and for SetAllStoresLimit the process defaults) is put back.  No validation here (the HTTP layer checks). *)
+Definition lim_upd (t : ltype) (rate : Z) (p : Z * Z) : Z * Z := match t with LAdd => (rate, snd p) | LRemove => (fst p, rate) end.
+Definition lim_set (m : limits) (id : Z) (t : ltype) (rate dflt : Z) : limits :=
+  aset m id (lim_upd t rate (match aget m id with Some p => p | None => (dflt, dflt) end)).
+Definition lim_all (m : limits) (t : ltype) (rate : Z) : limits := map (fun e : Z * (Z * Z) => (fst e, lim_upd t rate (snd e))) m.
+Definition do_set_store_limit (s : state) (id : Z) (t : ltype) (rate dflt : Z) (f : fault) : state * res :=
+  swap_persist s (with_limits (served s) (lim_set (c_limits (served s)) id t rate dflt)) f.
+Definition do_set_all_limits (s : state) (t : ltype) (rate : Z) (f : fault) : state * res :=
+  swap_persist s (with_limits (served s) (lim_all (c_limits (served s)) t rate)) f.
+
 Definition do_set_version (s : state) (v : option ver) (f : fault) : state * res :=
   match v with
   | None => (s, RInvalid)
@@ -391,6 +416,9 @@ Definition run_cmd (s : state) (o : op) : state * res :=
   | ODelLabel t k v f => do_del_label s t k v f
   | OSetVersion v f => do_set_version s v f
   | OSetMode c f => do_set_mode s c f
+  | OSetLabelMap m f => do_set_label_map s m f
+  | OSetStoreLimit id t rate dflt f => do_set_store_limit s id t rate dflt f
+  | OSetAllLimits t rate f => do_set_all_limits s t rate f
   end.
 
 (* ---------- observations ---------- *)
@@ -406,6 +434,26 @@ Definition snapshot (s : state) (r : res) : obs :=
       (if String.eqb (rm_mode (mm s)) "dr-auto-sync" then mm s else RMode (rm_mode (mm s)) "").
 Definition run_op (s : state) (o : op) : state * obs :=
   let '(s', r) := run_cmd s o in (s', snapshot s' r).
+
+(* ---------- leader change ----------
+   What a newly elected leader does with the configuration (Server.reloadConfigFromKV, RaftCluster.Start):
+   PersistOptions.Reload replaces the served sections by the reload of the config key when the key exists; a fresh
+   RuleManager is initialised when placement rules are enabled in the reloaded configuration (rules found in storage
+   are served; otherwise the default rule is built from max-replicas / location-labels and saved); a fresh ModeManager
+   takes the reloaded replication-mode section.  Nothing is written to the config key. *)
+Definition leader_change (s : state) : state :=
+  let c := match stored s with Some c => reload_conf c | None => served s end in
+  if rp_pr (c_repl c) then
+    let r := match strule s with Some r => r | None => Rule (rp_max (c_repl c)) (rp_labels (c_repl c)) end in
+    State c (stored s) (Some r) (Some r) true (c_rm c)
+  else State c (stored s) None (strule s) false (c_rm c).
+
+(* a history: setter calls and leader changes *)
+Inductive hop := HSet (o : op) | HLeader.
+Definition run_hcmd (s : state) (h : hop) : state * res :=
+  match h with HSet o => run_cmd s o | HLeader => (leader_change s, ROk) end.
+Definition run_hop (s : state) (h : hop) : state * obs :=
+  let '(s', r) := run_hcmd s h in (s', snapshot s' r).
 
 (* boot: a leader whose options were just persisted and whose cluster was just started *)
 Definition boot (c : conf) : state :=
@@ -434,15 +482,16 @@ Definition lp_eqb (a b : lprop) : bool :=
 Definition rm_eqb (a b : rmode) : bool := String.eqb (rm_mode a) (rm_mode b) && String.eqb (rm_label a) (rm_label b).
 Definition conf_eqb (a b : conf) : bool :=
   sched_eqb (c_sched a) (c_sched b) && repl_eqb (c_repl a) (c_repl b) && pd_eqb (c_pd a) (c_pd b)
-  && lp_eqb (c_lp a) (c_lp b) && ver_eqb (c_ver a) (c_ver b) && rm_eqb (c_rm a) (c_rm b).
+  && lp_eqb (c_lp a) (c_lp b) && ver_eqb (c_ver a) (c_ver b) && rm_eqb (c_rm a) (c_rm b)
+  && list_eqb (fun x y : Z * (Z * Z) => (fst x =? fst y) && (fst (snd x) =? fst (snd y)) && (snd (snd x) =? snd (snd y))) (c_limits a) (c_limits b).
 Definition rule_eqb (a b : rule) : bool := (ru_count a =? ru_count b) && str_list_eqb (ru_labels a) (ru_labels b).
 Definition obs_eqb (a b : obs) : bool :=
   res_eqb (o_res a) (o_res b) && conf_eqb (o_served a) (o_served b) && opt_eqb rule_eqb (o_srule a) (o_srule b)
   && opt_eqb conf_eqb (o_reload a) (o_reload b) && opt_eqb rule_eqb (o_strule a) (o_strule b) && rm_eqb (o_mm a) (o_mm b).
 
-Definition case := (conf * list op * list obs)%type.
+Definition case := (conf * list hop * list obs)%type.
 Definition model_obs (c : case) : list obs :=
-  let '(c0, ops, _) := c in let s0 := boot c0 in snapshot s0 ROk :: run run_op s0 ops.
+  let '(c0, ops, _) := c in let s0 := boot c0 in snapshot s0 ROk :: run run_hop s0 ops.
 Definition check_case (c : case) : list (nat * option obs * option obs) :=
   let '(_, _, got) := c in diff_at obs_eqb 0 (model_obs c) got.
 Fixpoint mismatches_from (n : nat) (cs : list case) :=
@@ -508,9 +557,24 @@ Definition mon_step (unk : bool) (o : op) (prev cur : obs) : list string :=
       then ["C18:replication-change-not-persisted-to-default-rule"] else [])
    else []).
 
-Fixpoint mon_run (unk : bool) (ops : list op) (prev : obs) (obs_l : list obs) : list string :=
+(* a leader change: the new leader serves exactly what a fresh reload of the storage gave just before it (whatever
+   happened earlier, unknown outcomes included), and with placement rules on the stored default rule *)
+Definition mon_leader (prev cur : obs) : list string :=
+  (match o_reload prev with
+   | Some r => if conf_eqb (o_served cur) r then [] else ["C18:new-leader-serves-a-different-configuration"]
+   | None => []
+   end) ++
+  (if rp_pr (c_repl (o_served cur)) then
+     match o_strule prev with
+     | Some r => if opt_eqb rule_eqb (o_srule cur) (Some r) then [] else ["C18:new-leader-serves-a-different-default-rule"]
+     | None => []
+     end
+   else []) ++
+  (if opt_eqb conf_eqb (o_reload cur) (o_reload prev) then [] else ["C18:leader-change-rewrote-the-stored-configuration"]).
+Fixpoint mon_run (unk : bool) (ops : list hop) (prev : obs) (obs_l : list obs) : list string :=
   match ops, obs_l with
-  | o :: r, b :: br => let u := unk || rule_unknown o in (mon_step u o prev b ++ mon_run u r b br)%list
+  | HSet o :: r, b :: br => let u := unk || rule_unknown o in (mon_step u o prev b ++ mon_run u r b br)%list
+  | HLeader :: r, b :: br => (mon_leader prev b ++ mon_run false r b br)%list   (* served rule := stored rule: nothing unknown any more *)
   | _, _ => []
   end.
 Definition monitor (c : case) : list string :=
@@ -535,6 +599,7 @@ Definition diff_fields (a b : obs) : list string :=
   (if lp_eqb (c_lp (o_served a)) (c_lp (o_served b)) then [] else ["served.label-property"]) ++
   (if ver_eqb (c_ver (o_served a)) (c_ver (o_served b)) then [] else ["served.cluster-version"]) ++
   (if rm_eqb (c_rm (o_served a)) (c_rm (o_served b)) then [] else ["served.replication-mode"]) ++
+  (if conf_eqb (with_limits (o_served a) []) (with_limits (o_served b) []) && negb (conf_eqb (o_served a) (o_served b)) then ["served.store-limit"] else []) ++
   (if opt_eqb rule_eqb (o_srule a) (o_srule b) then [] else ["served-rule"]) ++
   (if opt_eqb conf_eqb (o_reload a) (o_reload b) then [] else ["reload"]) ++
   (if opt_eqb rule_eqb (o_strule a) (o_strule b) then [] else ["stored-rule"]) ++
